@@ -5,8 +5,11 @@
    Definitions only; proofs live in proof/C15_GcProof.v.
 
    UpdateGCSafePoint is two labels per request thread, exactly its two storage operations
-   (LoadGCSafePoint ; compare ; SaveGCSafePoint): whether anything excludes two requests from
-   interleaving there is read off the regenerated skeleton (gc_locked below).
+   (LoadGCSafePoint ; compare ; save): whether anything excludes two requests of one member from
+   interleaving there is read off the regenerated skeleton (gc_locked below), and whether the save is
+   a compare-and-swap on the value that was loaded is read off its comparison list (gc_cas): with
+   it, request threads of different members (a deposed leader whose write arrives late) are ordinary
+   threads of the model.
    UpdateServiceGCSafePoint is one label: the skeleton shows it runs under serviceSafePointLock
    from entry to return.
 
@@ -283,6 +286,20 @@ Fixpoint has_defer_unlock (l : list ev) : bool :=
 Definition gc_locked : bool :=
   locked_before "LoadGCSafePoint" false skel_UpdateGCSafePoint && has_defer_unlock skel_UpdateGCSafePoint.
 
+(* is the write of the cluster safe point a compare-and-swap on the value the request was compared with?  read off the
+   comparison list of saveGCSafePointAsLeader: CreateRevision(key) = 0 for "nothing stored", Value(key) = <old> otherwise
+   (Leadership.LeaderTxn adds the comparison of the leader key, which the model does not need) *)
+Definition gc_cas : bool :=
+  existsb (String.prefix "clientv3.CreateRevision(") gc_save_cmps && existsb (String.prefix "clientv3.Value(") gc_save_cmps.
+
+(* the comparison of that transaction against what is stored: old = 0 means the request saw no stored value *)
+Definition cas_ok (g : gcv) (old : Z) : bool :=
+  match g with
+  | GAbsent => old =? 0
+  | GVal z => negb (old =? 0) && (z =? old)
+  | GBad => false
+  end.
+
 (* ---------- the interleaving model ---------- *)
 
 Record thread := Thread { t_new : Z; t_old : Z; t_before : list Z }.
@@ -308,7 +325,7 @@ Inductive label :=
 Definition set_sto (s : state) (st : store) : state := State st (thr s) (npend s) (acks s) (resps s).
 
 (* the model with the locking discipline given as a parameter *)
-Definition step_gen (locked : bool) (s : state) (l : label) : option state :=
+Definition step_gen (locked cas : bool) (s : state) (l : label) : option state :=
   match l with
   | LLoad t v =>
       match thr s t with
@@ -329,6 +346,9 @@ Definition step_gen (locked : bool) (s : state) (l : label) : option state :=
       | Some p =>
           let thr' := fun j => if Nat.eqb j t then None else thr s j in
           if t_old p <? t_new p then
+            if cas && negb (cas_ok (gc (sto s)) (t_old p))
+            then Some (State (sto s) thr' (pred (npend s)) (acks s) (resps s))     (* the stored value moved meanwhile: refused *)
+            else
             let st' := match o with ErrNotApplied => sto s | _ => Store (GVal (t_new p)) (svcs (sto s)) end in
             match o with
             | Ok => Some (State st' thr' (pred (npend s)) (t_new p :: acks s) ((t_new p, t_before p) :: resps s))
@@ -353,7 +373,7 @@ Definition step_gen (locked : bool) (s : state) (l : label) : option state :=
   end.
 
 (* the code as it is now *)
-Definition step : state -> label -> option state := step_gen gc_locked.
+Definition step : state -> label -> option state := step_gen gc_locked gc_cas.
 
 (* ---------- operation-level wrapper used by the correspondence check ---------- *)
 Inductive op :=
@@ -369,7 +389,9 @@ Inductive op :=
                                          (* the same with storage faults / REST deletes at the single storage operations of its first LoadMin *)
 | OApiDel (i : sid)
 | OSeed (i : sid) (exp sp : Z)            (* raw JSON entry put under the id's key, bypassing the handlers *)
-| OSeedMany (l : list (sid * (Z * Z))).  (* many such entries at once (hundreds of registrations found in storage) *)
+| OSeedMany (l : list (sid * (Z * Z)))
+| OMembers.                                (* first op of a case whose requests are served by SEVERAL members (the leadership moves):
+                                             gcSafePointLock is per member, so the case is replayed without the mutex *)  (* many such entries at once (hundreds of registrations found in storage) *)
 
 Inductive obs :=
 | BResp (v : Z) | BStarted | BErr | BBlocked | BUnit
@@ -382,15 +404,21 @@ Definition view_of (s : state) : view := View (gc (sto s)) (map snd (svcs (sto s
 
 Definition last_resp (s : state) : Z := match resps s with (r, _) :: _ => r | [] => -1 end.
 
+Section Wrapper.
+(* lk: are the requests of the case serialised by one member's mutex *)
+Variable lk : bool.
+Let stepL : state -> label -> option state := step_gen lk gc_cas.
+
 Definition finish (s : state) (t : nat) (o : outcome) : state * obs :=
   match thr s t with
   | None => (s, BBad)
   | Some p =>
-      match step s (LSave t o) with
+      match stepL s (LSave t o) with
       | None => (s, BBad)
       | Some s' =>
           if t_old p <? t_new p
-          then match o with Ok => (s', BResp (last_resp s')) | _ => (s', BErr) end
+          then if gc_cas && negb (cas_ok (gc (sto s)) (t_old p)) then (s', BErr)
+               else match o with Ok => (s', BResp (last_resp s')) | _ => (s', BErr) end
           else (s', BResp (last_resp s'))
       end
   end.
@@ -404,7 +432,7 @@ Definition rinit : rstate := (init, []).
 
 (* a request enters: None = blocked *)
 Definition start_req (s : state) (t : nat) (v : Z) (park : bool) : option (state * obs) :=
-  match step s (LLoad t v) with
+  match stepL s (LLoad t v) with
   | None => None
   | Some s1 =>
       Some (match thr s1 t with
@@ -444,7 +472,7 @@ Definition run_op1 (rs : rstate) (o : op) : rstate * obs :=
   | OGet =>
       match gc_read (gc (sto s)) with
       | None => (rs, BErr)
-      | Some v => match step s LGet with Some s' => lift rs (s', BResp v) | None => (rs, BBad) end
+      | Some v => match stepL s LGet with Some s' => lift rs (s', BResp v) | None => (rs, BBad) end
       end
   | OSvc i ttl sp now lo hi =>
       if (now <? lo - clock_slack) || (hi + clock_slack <? now) then (rs, BBad)
@@ -473,10 +501,12 @@ Definition run_op1 (rs : rstate) (o : op) : rstate * obs :=
                                                 | KSvc _ => st_save (key_of (fst x)) (Entry (text_of (fst x)) (fst (snd x)) (snd (snd x))) st
                                                 | _ => st
                                                 end) l (sto s)), BUnit)
+  | OMembers => (rs, BBad)          (* only meaningful as the first op of a case: see model_obs *)
   end.
 
 Definition run_op (rs : rstate) (o : op) : rstate * (obs * view) :=
   let '(rs', b) := run_op1 rs o in (rs', (b, view_of (fst rs'))).
+End Wrapper.
 
 (* ---------- equality of observations ---------- *)
 Definition entry_eqb (a b : entry) : bool :=
@@ -494,7 +524,11 @@ Definition view_eqb (a b : view) : bool := gcv_eqb (v_gc a) (v_gc b) && list_eqb
 Definition ov_eqb (a b : obs * view) : bool := obs_eqb (fst a) (fst b) && view_eqb (snd a) (snd b).
 
 Definition case := (list op * list (obs * view))%type.
-Definition model_obs (ops : list op) : list (obs * view) := run run_op rinit ops.
+Definition model_obs (ops : list op) : list (obs * view) :=
+  match ops with
+  | OMembers :: r => (BUnit, view_of init) :: run (run_op false) rinit r
+  | _ => run (run_op gc_locked) rinit ops
+  end.
 Definition check_case (c : case) := diff_at ov_eqb 0 (model_obs (fst c)) (snd c).
 
 Fixpoint mismatches_from (n : nat) (cs : list case) :=
